@@ -3,6 +3,9 @@
 //! items; it only *exposes* existing code to the harness in /verif/harness, it does not alter
 //! behaviour.  Non-test library build: the REAL link layer and transport are what run.
 
+#[path = "parse_probe.rs"]
+pub mod parse_probe;
+
 use std::future::Future;
 use std::pin::Pin;
 use std::task::{Context, Poll};
